@@ -39,4 +39,17 @@ PROPS = {
                 "model recomputed from the best chain. Non-trivial = at least one ledger comparison with a non-empty "
                 "coin set; distinct = distinct (schedule trace hash, plan length).",
     },
+    "C20": {
+        "level": "exploration",
+        "quick_runs": 4000, "thorough_runs": 150000, "chunk": 125,
+        "thorough_params": {"ops": 60},
+        "nontrivial_stat": "gate.handle.select",
+        "rule": "one run = 2-3 wallets, generated mining/forks, wallet removals (right and wrong passphrase, solo or "
+                "interleaved), re-imports of removed wallets, then (65% of runs) a Stop whose close(quit) is placed by the "
+                "schedule tape relative to block processing, the suspend/resume hand-shake, removal rounds and queue "
+                "operations; after the stop request a fair drain must make Stop return with the database closed "
+                "(deadlock predicate = nothing enabled while Stop has not returned; no wall-clock timeout). Runs without "
+                "a stop check liveness: every announced tip processed, every accepted task finished, all wallets ready. "
+                "Non-trivial = the handler loop was released at least once; distinct = distinct (schedule trace hash, plan length).",
+    },
 }
